@@ -156,7 +156,7 @@ def gen_solve(d: Draw, planet_id, sol_id, spec):
         o['solve_for'] = sf
     fault = d.weighted([('none', 8), ('solve_for_unknown', 2), ('solve_for_many', 1), ('solve_for_list', 1), ('solve_for_odd', 1), ('mangle', 3),
                         ('degree', 1), ('frequency', 1), ('steps', 4), ('ram', 1), ('tolerance', 2), ('integrator', 1),
-                        ('max_step', 1), ('bulk_density', 1)])
+                        ('max_step', 1), ('bulk_density', 1), ('degree_high', 3)])
     op = {'op': 'solve', 'planet': planet_id, 'sol': sol_id, 'options': o, 'fault': fault}
     if fault == 'solve_for_unknown':
         base = list(sf or ['tidal'])
@@ -178,6 +178,11 @@ def gen_solve(d: Draw, planet_id, sol_id, spec):
                         'which': d.below(5)}
     elif fault == 'bulk_density':
         o['_bulk_density'] = d.pick(['zero', 'nan', 'negative', 'tiny', 'inf'])
+    elif fault == 'degree_high':
+        # (r/R)^l underflows in the starting solution: every layer "integrates", the surface system is singular and the
+        # failure comes from the collapse phase (ZGESV info != 0) - the one failure exit that is not an integration failure
+        o['degree_l'] = d.pick([45, 60, 100, 150])
+        o['raise_on_fail'] = d.chance(1, 2)
     elif fault == 'degree':
         o['degree_l'] = d.pick([0, 1])
     elif fault == 'frequency':
